@@ -168,7 +168,7 @@ func spec_sameCalls(a, b []spec_Call) bool {
 //@   requires c != nil && c.l != nil && g != nil && c.universe != nil && c.args != nil
 //@   requires c.pkg != nil ==> forall n string :: has(c.pkg.Types(), n) ==> c.pkg.Types()[n] != nil && spec_docOK(c, c.pkg.Types()[n])
 //@   assigns *
-//@   preserves pkg/gengo. go/ast. go/token. golang.org/x/tools/go/packages. except pkg/gengo.gengoCtx.defers, pkg/gengo.gengoCtx.ignore
+//@   preserves pkg/gengo. pkg/types.Universe. go/ast. go/token. golang.org/x/tools/go/packages. except pkg/gengo.gengoCtx.defers, pkg/gengo.gengoCtx.ignore
 //@   effects
 //@   ensures eq(spec_fx(), old(spec_fx()))
 //@   ensures len(spec_calls()) > len(old(spec_calls())) ==> spec_callMark() == len(spec_fx())
@@ -210,12 +210,12 @@ func spec_objOK(c *gengoCtx, o types.Object) bool {
 
 //@ func Generator.GenerateType
 //@   calllog 1
-//@   preserves pkg/gengo. go/ast. go/token. golang.org/x/tools/go/packages. except pkg/gengo.gengoCtx.defers, pkg/gengo.gengoCtx.ignore
+//@   preserves pkg/gengo. pkg/types.Universe. go/ast. go/token. golang.org/x/tools/go/packages. except pkg/gengo.gengoCtx.defers, pkg/gengo.gengoCtx.ignore
 //@   note user code: may do anything to the heap EXCEPT to the framework's own (unexported) fields of package gengo other than the Defer list and the ignore flag, and to the loaded syntax trees / file set / module records, which are treated as immutable (preserves); ASSUMED to perform no file-system effect of its own; each invocation is recorded in the ghost call log with the error it returned
 
 //@ func AliasGenerator.GenerateAliasType
 //@   calllog 2
-//@   preserves pkg/gengo. go/ast. go/token. golang.org/x/tools/go/packages. except pkg/gengo.gengoCtx.defers, pkg/gengo.gengoCtx.ignore
+//@   preserves pkg/gengo. pkg/types.Universe. go/ast. go/token. golang.org/x/tools/go/packages. except pkg/gengo.gengoCtx.defers, pkg/gengo.gengoCtx.ignore
 //@   note user code, like Generator.GenerateType
 
 //@ func AliasGenerator.Name
@@ -233,7 +233,7 @@ func spec_lastCall() spec_Call { return spec_calls()[len(spec_calls())-1] }
 //@   props C02 C06 C07
 //@   requires c != nil && c.l != nil && g != nil && x != nil
 //@   assigns *
-//@   preserves pkg/gengo. go/ast. go/token. golang.org/x/tools/go/packages. except pkg/gengo.gengoCtx.defers, pkg/gengo.gengoCtx.ignore
+//@   preserves pkg/gengo. pkg/types.Universe. go/ast. go/token. golang.org/x/tools/go/packages. except pkg/gengo.gengoCtx.defers, pkg/gengo.gengoCtx.ignore
 //@   effects
 //@   ensures eq(spec_fx(), old(spec_fx()))
 //@   ensures spec_callMark() == len(spec_fx())
@@ -247,7 +247,7 @@ func spec_lastCall() spec_Call { return spec_calls()[len(spec_calls())-1] }
 //@   props C02 C06
 //@   requires c != nil && c.l != nil && g != nil && x != nil
 //@   assigns *
-//@   preserves pkg/gengo. go/ast. go/token. golang.org/x/tools/go/packages. except pkg/gengo.gengoCtx.defers, pkg/gengo.gengoCtx.ignore
+//@   preserves pkg/gengo. pkg/types.Universe. go/ast. go/token. golang.org/x/tools/go/packages. except pkg/gengo.gengoCtx.defers, pkg/gengo.gengoCtx.ignore
 //@   effects
 //@   ensures eq(spec_fx(), old(spec_fx()))
 //@   ensures spec_callMark() == len(spec_fx())
@@ -258,7 +258,7 @@ func spec_lastCall() spec_Call { return spec_calls()[len(spec_calls())-1] }
 
 //@ func GeneratorNewer.New
 //@   fresh-result
-//@   preserves pkg/gengo. go/ast. go/token. golang.org/x/tools/go/packages. except pkg/gengo.gengoCtx.defers, pkg/gengo.gengoCtx.ignore
+//@   preserves pkg/gengo. pkg/types.Universe. go/ast. go/token. golang.org/x/tools/go/packages. except pkg/gengo.gengoCtx.defers, pkg/gengo.gengoCtx.ignore
 //@   note user code (custom constructor): unknown effects; ASSUMED to return a generator that shares no per-package state with earlier ones
 
 // spec_isNewer: the generator supplies its own constructor.
@@ -268,7 +268,7 @@ func spec_isNewer(g Generator) bool { _, ok := g.(GeneratorNewer); return ok }
 //@   props C05
 //@   requires generator != nil
 //@   assigns *
-//@   preserves pkg/gengo. go/ast. go/token. golang.org/x/tools/go/packages. except pkg/gengo.gengoCtx.defers, pkg/gengo.gengoCtx.ignore
+//@   preserves pkg/gengo. pkg/types.Universe. go/ast. go/token. golang.org/x/tools/go/packages. except pkg/gengo.gengoCtx.defers, pkg/gengo.gengoCtx.ignore
 //@   ensures fresh(result)
 //@   note every package gets its own generator value: a freshly allocated one (reflect.New of the prototype's type), never the registered prototype itself; for a generator with a custom New this is the ASSUMED contract of that constructor (fresh-result)
 
@@ -413,7 +413,7 @@ func spec_isStaleRemoval(e spec_Effect, p gengotypes.Package, base string) bool 
 //@   requires forall i int :: 0 <= i && i < len(generators) ==> generators[i] != nil
 //@   requires c.universe.Package(pkg) != nil ==> spec_pkgOK(c.universe, c.universe.Package(pkg))
 //@   assigns *
-//@   preserves pkg/gengo. go/ast. go/token. golang.org/x/tools/go/packages. except pkg/gengo.gengoCtx.defers, pkg/gengo.gengoCtx.ignore
+//@   preserves pkg/gengo. pkg/types.Universe. go/ast. go/token. golang.org/x/tools/go/packages. except pkg/gengo.gengoCtx.defers, pkg/gengo.gengoCtx.ignore
 //@   effects
 //@   fnvalue-calllog 3
 //@   ensures len(spec_fx()) >= len(old(spec_fx())) && eq(spec_fx()[:len(old(spec_fx()))], old(spec_fx()))
@@ -468,6 +468,36 @@ func spec_objOKU(u *gengotypes.Universe, o types.Object) bool {
 }
 
 func spec_isGenfile(v any) bool { _, ok := v.(*genfile); return ok }
+
+// spec_isPkgEffect(e, u, base, all): e is an output-file effect (or a stale-output removal) of some local package
+// that this run may process: every local package when all is set, the directly requested ones otherwise.
+func spec_isPkgEffect(e spec_Effect, u *gengotypes.Universe, base string, all bool) bool {
+	return spec_any(func(q string) bool {
+		return spec_local(u, q) && (all || spec_direct(u, q)) && u.Package(q) != nil &&
+			(spec_isOutput(e, u.Package(q).SourceDir(), base) || spec_isStaleRemoval(e, u.Package(q), base))
+	})
+}
+
+func spec_local(u *gengotypes.Universe, q string) bool  { return gengotypes.Spec_isLocal(u, q) }
+func spec_direct(u *gengotypes.Universe, q string) bool { return gengotypes.Spec_isDirect(u, q) }
+
+//@ func gengoCtx.Execute
+//@   props C02 C07 C08
+//@   requires c != nil && c.args != nil && c.universe != nil && c.l != nil
+//@   requires forall i int :: 0 <= i && i < len(generators) ==> generators[i] != nil
+//@   requires forall q string :: spec_local(c.universe, q) ==> c.universe.Package(q) != nil && spec_pkgOK(c.universe, c.universe.Package(q))
+//@   requires c.args.All ==> c.universe.SumFile() != nil
+//@   assigns *
+//@   preserves pkg/gengo. pkg/types.Universe. go/ast. go/token. golang.org/x/tools/go/packages. except pkg/gengo.gengoCtx.defers, pkg/gengo.gengoCtx.ignore, pkg/gengo.gengoCtx.sumFile, pkg/sumfile.File.Dir
+//@   effects
+//@   ensures len(spec_fx()) >= len(old(spec_fx())) && eq(spec_fx()[:len(old(spec_fx()))], old(spec_fx()))
+//@   ensures !c.args.All ==> forall i int :: len(old(spec_fx())) <= i && i < len(spec_fx()) ==> spec_isPkgEffect(spec_fx()[i], c.universe, c.args.OutputFileBaseName, false)
+//@   ensures c.args.All ==> exists n int :: len(old(spec_fx())) <= n && n <= len(spec_fx()) && (forall i int :: len(old(spec_fx())) <= i && i < n ==> spec_isPkgEffect(spec_fx()[i], c.universe, c.args.OutputFileBaseName, true)) && (forall i int :: n <= i && i < len(spec_fx()) ==> spec_fx()[i].Path == filepath.Join(c.universe.SumFile().Dir, "gengo.sum"))
+//@   loop 1 invariant c.args != nil && c.universe != nil && eq(spec_fx(), old(spec_fx()))
+//@   loop 2 invariant c.args != nil && c.universe != nil && c.l != nil && len(spec_fx()) >= len(old(spec_fx())) && eq(spec_fx()[:len(old(spec_fx()))], old(spec_fx()))
+//@   loop 2 invariant forall i int :: len(old(spec_fx())) <= i && i < len(spec_fx()) ==> spec_isPkgEffect(spec_fx()[i], c.universe, c.args.OutputFileBaseName, c.args.All)
+//@   loop 2 invariant forall i int :: 0 <= i && i < len(ys2) ==> spec_local(c.universe, ys2[i]) && (ys2b[i] == spec_direct(c.universe, ys2[i]))
+//@   note C02: gengo.sum is touched only after every package succeeded (an error from pkgExecute returns before Save) and only when All is set; every effect on gengo.sum comes after all package effects, so a process that dies before the end leaves gengo.sum untouched. C07: without All only directly requested packages are processed.
 
 //@ func snippetWriter.Dumper
 //@   props C01
